@@ -72,6 +72,20 @@ def subharnesses(tier):
                         'apps': apps, 'event': ['none']}
                 subs.append(('%s-D1-A4-%s-blacklisted%s' % (
                     topo, g1.ptag(pl), ''.join(map(str, bl))), spec))
+    # leased instances whose server's reboot date was pulled in after they
+    # were placed (expiry and valid_until independent solver variables), behind
+    # an instance nobody can take: the failed eviction sweep must give every
+    # one of them its server back
+    for topo in ('T1',):
+        for pl in [(None, 0, 1), (None, 0, 0), (None, 0, None), (0, 1, None)]:
+            apps = [{'place': j, 'lease': 3600 if j is not None else 0}
+                    for j in pl]
+            if pl[0] is None:
+                apps[0]['traits'] = 1
+            spec = {'topo': topo, 'D': 1, 'servers': [{}, {}],
+                    'apps': apps, 'event': ['set_valid_until', 0, 1],
+                    'sym_valid_until': True, 'sym_expiry': True}
+            subs.append(('%s-D1-A3-%s-leased' % (topo, g1.ptag(pl)), spec))
     return subs
 
 
